@@ -104,9 +104,29 @@ def run(ck, m):
     for t, st in stores_in(ast.Module(body=cfs.body, type_ignores=[])):
         if isinstance(t, ast.Name) and isinstance(st, ast.Assign) and norm(st.value) in atoms:
             atoms[t.id] = atoms[norm(st.value)]
-    first_if = next((s for s in cfs.body if isinstance(s, ast.If)), None)
-    ck.need(first_if is not None and any(isinstance(x, ast.Raise) for x in first_if.body), "reject `if` of _check_format_spec not found")
-    reject = _bool_of(first_if.test, atoms)
+    # the reject condition: the disjunction, over every `raise` whose guards are built from the match atoms only, of the conjunction of its guards
+    # (one `if a or b: raise`, or consecutive `if a: raise` / `if b: raise`, or a nested form - all the same set of rejected strings)
+    rej_terms, first_if = [], None
+    for r_ in body_walk(cfs):
+        if not isinstance(r_, ast.Raise):
+            continue
+        gs_ = list(guards(r_))
+        if not gs_:
+            continue
+        try:
+            fs_ = [(_bool_of(t_, atoms), b_) for t_, b_ in gs_]
+        except AnalysisError:
+            continue
+        rej_terms.append(fs_)
+        if first_if is None:
+            first_if = enclosing_stmt(r_)._p if isinstance(enclosing_stmt(r_)._p, ast.If) else enclosing_stmt(r_)
+    if not rej_terms:
+        # (kept for the diagnostic: which atom was not understood)
+        fi_ = next((s for s in cfs.body if isinstance(s, ast.If)), None)
+        ck.need(fi_ is not None and any(isinstance(x, ast.Raise) for x in fi_.body), "reject `if` of _check_format_spec not found")
+        _bool_of(fi_.test, atoms)
+    ck.need(bool(rej_terms), "reject condition of _check_format_spec not found")
+    reject = lambda env: any(all(bool(f_(env)) == b_ for f_, b_ in fs_) for fs_ in rej_terms)
     used = sorted(set(atoms.values()))
     langs = {nm: rex.compile_pattern(lits[nm][0], lits[nm][1]) for nm in used}
     G = rex.compile_pattern(GRAMMAR, re.ASCII)
@@ -122,7 +142,7 @@ def run(ck, m):
     ck.ob("R1", first_if, not w,
           f"accepted language differs from the documented grammar: accepted but not documented {only_acc!r}; documented but rejected {only_gr!r} (shortest witnesses)",
           stmt="L(accept(_FORMAT_SPEC, _NO_VERTICAL_SPEC)) == L(documented grammar)")
-    ck.extra["regex_algebra"] = {"condition": norm(first_if.test), "literals": {k: lits[k][0] for k in used}, **stats}
+    ck.extra["regex_algebra"] = {"condition": norm(first_if.test) if isinstance(first_if, ast.If) else f"{len(rej_terms)} reject site(s)", "literals": {k: lits[k][0] for k in used}, **stats}
     A = rex.compile_pattern(lits["_ALPHA_BG_FORMAT"][0], lits["_ALPHA_BG_FORMAT"][1])
     A_doc = rex.compile_pattern(r"#([0-9a-fA-F]{6})?", re.ASCII)
     w, _ = rex.decide([A, A_doc], lambda b: b[0] != b[1], limit=3)
